@@ -129,11 +129,21 @@ fn chunks(case: &Case, per_item: &[Vec<u8>]) -> Vec<Vec<u8>> {
 }
 
 fn to_f(h: &Header, payload: &[u8]) -> F {
-    F { ctrl: h.control.to_u8(), dst: h.destination.value(), src: h.source.value(), payload: payload.to_vec() }
+    F {
+        ctrl: h.control.to_u8(),
+        dst: h.destination.value(),
+        src: h.source.value(),
+        payload: payload.to_vec(),
+    }
 }
 
 fn from_ref(f: &Frame) -> F {
-    F { ctrl: f.ctrl, dst: f.dst, src: f.src, payload: f.payload.clone() }
+    F {
+        ctrl: f.ctrl,
+        dst: f.dst,
+        src: f.src,
+        payload: f.payload.clone(),
+    }
 }
 
 pub fn buffer_size(frag_size: usize) -> usize {
@@ -142,10 +152,24 @@ pub fn buffer_size(frag_size: usize) -> usize {
 }
 
 /// run the library's link reader over the chunks; returns delivered frames and the terminating error
-pub fn lib_read(discard: bool, datagram: bool, frag_size: usize, chunks: &[Vec<u8>], max_frames: usize) -> (Vec<F>, LinkError) {
+pub fn lib_read(
+    discard: bool,
+    datagram: bool,
+    frag_size: usize,
+    chunks: &[Vec<u8>],
+    max_frames: usize,
+) -> (Vec<F>, LinkError) {
     let modes = LinkModes {
-        error_mode: if discard { LinkErrorMode::Discard } else { LinkErrorMode::Close },
-        read_mode: if datagram { LinkReadMode::Datagram } else { LinkReadMode::Stream },
+        error_mode: if discard {
+            LinkErrorMode::Discard
+        } else {
+            LinkErrorMode::Close
+        },
+        read_mode: if datagram {
+            LinkReadMode::Datagram
+        } else {
+            LinkReadMode::Stream
+        },
     };
     let (io, mut peer) = pipe(datagram);
     for c in chunks {
@@ -190,10 +214,20 @@ fn expected(case: &Case, chunks: &[Vec<u8>]) -> (Vec<F>, bool) {
     } else {
         let all: Vec<u8> = chunks.iter().flatten().copied().collect();
         if case.discard {
-            (rl::scan_discard(&all).frames.iter().map(|(_, f)| from_ref(f)).collect(), false)
+            (
+                rl::scan_discard(&all)
+                    .frames
+                    .iter()
+                    .map(|(_, f)| from_ref(f))
+                    .collect(),
+                false,
+            )
         } else {
             let s = rl::scan_close(&all);
-            (s.frames.iter().map(|(_, f)| from_ref(f)).collect(), s.error_at.is_some())
+            (
+                s.frames.iter().map(|(_, f)| from_ref(f)).collect(),
+                s.error_at.is_some(),
+            )
         }
     }
 }
@@ -225,7 +259,14 @@ impl Prop for Stream {
         case_strategy().boxed()
     }
     fn floors() -> Vec<(&'static str, u32)> {
-        vec![("cut_inside_frame", 200), ("noise_before_frame", 150), ("discard", 300), ("close", 200), ("datagram", 100), ("buffer_wrap", 20)]
+        vec![
+            ("cut_inside_frame", 200),
+            ("noise_before_frame", 150),
+            ("discard", 300),
+            ("close", 200),
+            ("datagram", 100),
+            ("buffer_wrap", 20),
+        ]
     }
     fn run(case: &Case) -> CaseOut {
         let mut out = CaseOut::default();
@@ -233,7 +274,13 @@ impl Prop for Stream {
         let ch = chunks(case, &per_item);
         let total: usize = ch.iter().map(|c| c.len()).sum();
         let (exp, exp_err) = expected(case, &ch);
-        let (got, err) = lib_read(case.discard, case.datagram, case.frag_size as usize, &ch, exp.len() + 64);
+        let (got, err) = lib_read(
+            case.discard,
+            case.datagram,
+            case.frag_size as usize,
+            &ch,
+            exp.len() + 64,
+        );
 
         // labels
         out.label(if case.discard { "discard" } else { "close" });
@@ -266,7 +313,11 @@ impl Prop for Stream {
                         out.label("cut_inside_frame");
                         out.nontrivial = true;
                     }
-                    if bounds.range(off + 1..off + b.len().min(10)).next().is_some() {
+                    if bounds
+                        .range(off + 1..off + b.len().min(10))
+                        .next()
+                        .is_some()
+                    {
                         out.label("cut_inside_header");
                     }
                 }
@@ -287,7 +338,11 @@ impl Prop for Stream {
         }
 
         if got != exp {
-            let first = got.iter().zip(exp.iter()).position(|(a, b)| a != b).unwrap_or(got.len().min(exp.len()));
+            let first = got
+                .iter()
+                .zip(exp.iter())
+                .position(|(a, b)| a != b)
+                .unwrap_or(got.len().min(exp.len()));
             let kind = if got.len() < exp.len() && got[..] == exp[..got.len()] {
                 "frame-lost"
             } else if got.len() > exp.len() && got[..exp.len()] == exp[..] {
@@ -315,10 +370,22 @@ impl Prop for Stream {
         }
         if exp_err {
             if !is_frame_error(&err) {
-                out.fail(Fail::new("close-mode-error", format!("reference finds a framing error, library ended with {:?}", err)));
+                out.fail(Fail::new(
+                    "close-mode-error",
+                    format!(
+                        "reference finds a framing error, library ended with {:?}",
+                        err
+                    ),
+                ));
             }
         } else if !is_eof(&err) {
-            out.fail(Fail::new("spurious-error", format!("stream is clean to the end for the reference, library ended with {:?}", err)));
+            out.fail(Fail::new(
+                "spurious-error",
+                format!(
+                    "stream is clean to the end for the reference, library ended with {:?}",
+                    err
+                ),
+            ));
         }
         out
     }
@@ -339,34 +406,46 @@ fn frame_strategy() -> impl Strategy<Value = F> {
         1 => Just(2u8),       // contains an embedded frame image
         1 => Just(3u8),       // constant
     ];
-    (any::<u8>(), addr.clone(), addr, len, content, any::<u64>()).prop_map(|(ctrl, dst, src, len, content, seed)| {
-        let mut payload = pseudo_bytes(seed, len);
-        match content {
-            1 => {
-                let mut i = (seed as usize) % 7;
-                while i + 1 < payload.len() {
-                    payload[i] = 0x05;
-                    payload[i + 1] = 0x64;
-                    i += 5 + (seed as usize >> 8) % 23;
+    (any::<u8>(), addr.clone(), addr, len, content, any::<u64>()).prop_map(
+        |(ctrl, dst, src, len, content, seed)| {
+            let mut payload = pseudo_bytes(seed, len);
+            match content {
+                1 => {
+                    let mut i = (seed as usize) % 7;
+                    while i + 1 < payload.len() {
+                        payload[i] = 0x05;
+                        payload[i + 1] = 0x64;
+                        i += 5 + (seed as usize >> 8) % 23;
+                    }
                 }
-            }
-            2 => {
-                let inner = rl::encode((seed >> 16) as u8, (seed >> 24) as u16, (seed >> 40) as u16, &pseudo_bytes(seed ^ 0x55, (seed as usize >> 3) % 20));
-                if inner.len() <= payload.len() {
-                    let at = (seed as usize >> 5) % (payload.len() - inner.len() + 1);
-                    payload[at..at + inner.len()].copy_from_slice(&inner);
+                2 => {
+                    let inner = rl::encode(
+                        (seed >> 16) as u8,
+                        (seed >> 24) as u16,
+                        (seed >> 40) as u16,
+                        &pseudo_bytes(seed ^ 0x55, (seed as usize >> 3) % 20),
+                    );
+                    if inner.len() <= payload.len() {
+                        let at = (seed as usize >> 5) % (payload.len() - inner.len() + 1);
+                        payload[at..at + inner.len()].copy_from_slice(&inner);
+                    }
                 }
-            }
-            3 => {
-                let b = (seed >> 9) as u8;
-                for x in payload.iter_mut() {
-                    *x = b;
+                3 => {
+                    let b = (seed >> 9) as u8;
+                    for x in payload.iter_mut() {
+                        *x = b;
+                    }
                 }
+                _ => {}
             }
-            _ => {}
-        }
-        F { ctrl, dst, src, payload }
-    })
+            F {
+                ctrl,
+                dst,
+                src,
+                payload,
+            }
+        },
+    )
 }
 
 pub fn pseudo_bytes(seed: u64, len: usize) -> Vec<u8> {
@@ -414,11 +493,24 @@ fn case_strategy() -> impl Strategy<Value = Case> {
     (
         prop_oneof![3 => Just(true), 2 => Just(false)],
         prop_oneof![4 => Just(false), 1 => Just(true)],
-        prop_oneof![Just(249u16), Just(250), Just(498), Just(499), Just(2048), 249u16..=2048],
+        prop_oneof![
+            Just(249u16),
+            Just(250),
+            Just(498),
+            Just(499),
+            Just(2048),
+            249u16..=2048
+        ],
         proptest::collection::vec(item_strategy(), 1..8),
         chunking_strategy(),
     )
-        .prop_map(|(discard, datagram, frag_size, items, chunking)| Case { discard, datagram, frag_size, items, chunking })
+        .prop_map(|(discard, datagram, frag_size, items, chunking)| Case {
+            discard,
+            datagram,
+            frag_size,
+            items,
+            chunking,
+        })
 }
 
 // ---------------------------------------------------------------------------------------------
@@ -456,7 +548,13 @@ impl Prop for BitErrors {
             frame_strategy(),
             chunking_strategy(),
         )
-            .prop_map(|(discard, victim, bits, good, chunking)| BitCase { discard, victim, bits, good, chunking })
+            .prop_map(|(discard, victim, bits, good, chunking)| BitCase {
+                discard,
+                victim,
+                bits,
+                good,
+                chunking,
+            })
             .boxed()
     }
     fn run(case: &BitCase) -> CaseOut {
@@ -473,7 +571,13 @@ impl Prop for BitErrors {
             "header_and_body"
         };
         out.label(region);
-        let c = Case { discard: case.discard, datagram: false, frag_size: 2048, items: vec![], chunking: case.chunking.clone() };
+        let c = Case {
+            discard: case.discard,
+            datagram: false,
+            frag_size: 2048,
+            items: vec![],
+            chunking: case.chunking.clone(),
+        };
         let ch = chunks(&c, &[bad.clone(), good.clone()]);
         let (got, err) = lib_read(case.discard, false, 2048, &ch, 64);
         let all: Vec<u8> = bad.iter().chain(good.iter()).copied().collect();
@@ -487,7 +591,12 @@ impl Prop for BitErrors {
                 payload.extend_from_slice(&bad[pos..pos + n]);
                 pos += n + 2;
             }
-            F { ctrl: bad[3], dst: u16::from_le_bytes([bad[4], bad[5]]), src: u16::from_le_bytes([bad[6], bad[7]]), payload }
+            F {
+                ctrl: bad[3],
+                dst: u16::from_le_bytes([bad[4], bad[5]]),
+                src: u16::from_le_bytes([bad[6], bad[7]]),
+                payload,
+            }
         };
         for g in &got {
             // (a) the transmitted frame, now damaged, is never delivered - neither as sent nor as received
@@ -503,7 +612,10 @@ impl Prop for BitErrors {
             if !all.windows(enc.len().max(1)).any(|w| w == &enc[..]) {
                 out.fail(Fail::new(
                     "fabricated-frame",
-                    format!("delivered frame {:?} does not occur in the received byte stream", g),
+                    format!(
+                        "delivered frame {:?} does not occur in the received byte stream",
+                        g
+                    ),
                 ));
                 return out;
             }
@@ -512,7 +624,11 @@ impl Prop for BitErrors {
         // block CRC == header CRC); once the real header is damaged every scanner must honour that image and wait
         // for its body, swallowing the next frame. Recovery is therefore only demanded when the damaged region
         // holds no such image, which the reference scanner decides.
-        let reference_finds_good = rl::scan_discard(&all).frames.last().map(|(_, f)| from_ref(f)) == Some(case.good.clone());
+        let reference_finds_good = rl::scan_discard(&all)
+            .frames
+            .last()
+            .map(|(_, f)| from_ref(f))
+            == Some(case.good.clone());
         if !reference_finds_good {
             out.label("payload_mimics_header");
         }
@@ -537,13 +653,22 @@ impl Prop for BitErrors {
 // exhaustive sub-domains
 
 fn lib_encode(f: &F) -> Result<Vec<u8>, String> {
-    let header = Header::new(ControlField::from(f.ctrl), AnyAddress::from(f.dst), AnyAddress::from(f.src));
+    let header = Header::new(
+        ControlField::from(f.ctrl),
+        AnyAddress::from(f.dst),
+        AnyAddress::from(f.src),
+    );
     let mut buffer = [0u8; 292];
     let mut cursor = scursor::WriteCursor::new(&mut buffer);
     let r = if f.payload.is_empty() {
         format_header_only(header, &mut cursor).map(|d| d.frame.to_vec())
     } else {
-        format_data_frame(header, Payload::new(f.payload[0], &f.payload[1..]), &mut cursor).map(|d| d.frame.to_vec())
+        format_data_frame(
+            header,
+            Payload::new(f.payload[0], &f.payload[1..]),
+            &mut cursor,
+        )
+        .map(|d| d.frame.to_vec())
     };
     r.map_err(|_| "BadWrite".to_string())
 }
@@ -554,22 +679,55 @@ fn exhaustive_lengths(seed: u64) -> (u64, Vec<J>, Option<(Fail, J)>) {
     for len in 0..=250usize {
         beat();
         let s = seed.wrapping_mul(31).wrapping_add(len as u64);
-        let f = F { ctrl: (s >> 3) as u8, dst: (s >> 11) as u16, src: (s >> 27) as u16, payload: pseudo_bytes(s, len) };
-        let js = J::o(vec![("payload_len", J::U(len as u64)), ("ctrl", J::U(f.ctrl as u64)), ("dst", J::U(f.dst as u64)), ("src", J::U(f.src as u64))]);
+        let f = F {
+            ctrl: (s >> 3) as u8,
+            dst: (s >> 11) as u16,
+            src: (s >> 27) as u16,
+            payload: pseudo_bytes(s, len),
+        };
+        let js = J::o(vec![
+            ("payload_len", J::U(len as u64)),
+            ("ctrl", J::U(f.ctrl as u64)),
+            ("dst", J::U(f.dst as u64)),
+            ("src", J::U(f.src as u64)),
+        ]);
         if len == 17 || len == 250 {
             samples.push(js.clone());
         }
         // (1) library encoder == reference encoder
         let lib = match lib_encode(&f) {
             Ok(b) => b,
-            Err(e) => return (n, samples, Some((Fail::new("encoder-rejects", format!("library cannot format payload of {len} bytes: {e}")), js))),
+            Err(e) => {
+                return (
+                    n,
+                    samples,
+                    Some((
+                        Fail::new(
+                            "encoder-rejects",
+                            format!("library cannot format payload of {len} bytes: {e}"),
+                        ),
+                        js,
+                    )),
+                )
+            }
         };
         if lib != f.bytes() {
-            return (n, samples, Some((Fail::new("encoder-differs", format!("library and reference encodings differ for payload length {len}")), js)));
+            return (
+                n,
+                samples,
+                Some((
+                    Fail::new(
+                        "encoder-differs",
+                        format!("library and reference encodings differ for payload length {len}"),
+                    ),
+                    js,
+                )),
+            );
         }
         // round trip, both modes x {whole, one byte at a time, split at every offset}
         for discard in [true, false] {
-            let mut chunkings: Vec<Vec<Vec<u8>>> = vec![vec![lib.clone()], lib.iter().map(|b| vec![*b]).collect()];
+            let mut chunkings: Vec<Vec<Vec<u8>>> =
+                vec![vec![lib.clone()], lib.iter().map(|b| vec![*b]).collect()];
             for cut in 1..lib.len() {
                 chunkings.push(vec![lib[..cut].to_vec(), lib[cut..].to_vec()]);
             }
@@ -589,7 +747,12 @@ fn exhaustive_lengths(seed: u64) -> (u64, Vec<J>, Option<(Fail, J)>) {
             }
         }
         // every single-bit error: never delivered; the intact copy that follows is found (discard) / error (close)
-        let good = F { ctrl: 0xC4, dst: 1, src: 1024, payload: vec![0xC0, 0xC1, 0x01] };
+        let good = F {
+            ctrl: 0xC4,
+            dst: 1,
+            src: 1024,
+            payload: vec![0xC0, 0xC1, 0x01],
+        };
         for bit in 0..lib.len() * 8 {
             let mut bad = lib.clone();
             bad[bit / 8] ^= 1 << (bit % 8);
@@ -598,7 +761,11 @@ fn exhaustive_lengths(seed: u64) -> (u64, Vec<J>, Option<(Fail, J)>) {
                 let mut stream = bad.clone();
                 stream.extend_from_slice(&good.bytes());
                 let (got, err) = lib_read(discard, false, 249, &[stream], 8);
-                let ok = if discard { got == vec![good.clone()] } else { got.is_empty() && is_frame_error(&err) };
+                let ok = if discard {
+                    got == vec![good.clone()]
+                } else {
+                    got.is_empty() && is_frame_error(&err)
+                };
                 // a flipped bit inside the payload could in principle expose an embedded frame; payloads here are pseudo-random, none does
                 if !ok {
                     return (
